@@ -414,6 +414,11 @@ TLoopEnd ==
         \cup Chk(np1 <= NonProgressBound(s.ntry), "C03.non_progress_bounded")
         \cup Chk((Det /\ s.noise = "det") => Ev.incyR = s.minY, "C04.incumbent_is_min")
         \cup Chk(Det => Ev.uequbest, "C19.incumbent_tuple_consistent")
+        \* noisy runs: after the history re-evaluation the incumbent tuple is that of a
+        \* recorded iterate (the current one, or the earlier iterate it was swapped for)
+        \cup Chk((s.uhl > 0 /\ s.polled /\ s.iter > 0) =>
+                    \E i \in DOMAIN s.hist : s.hist[i].uid = Ev.incuid /\ s.hist[i].yR = Ev.incyR,
+                 "C19.swap_to_recorded_iterate")
         \* the incumbent's observed value was observed AT the incumbent (every mode;
         \* under specified noise merged values lie within the range observed there)
         \cup Chk(LET at == {s.calls[i].yR : i \in {j \in DOMAIN s.calls : s.calls[j].uid = Ev.incuid}}
